@@ -53,6 +53,7 @@ MAXEV = 6000
 HSM = 5.0 / 256.0       # smoothing length: radius 2h = 5/128, positions k/64
 GRID = 64
 STAGE_RE = re.compile(r'^stage(\d+)$')
+WORKER_BUDGET = 3 * 3600
 
 # documented pairings: integrator -> stepper classes it is used with in the
 # schemes / examples / tests of the repository
@@ -145,10 +146,10 @@ def stepper_source(cls, methods, hooks):
 
 
 EQ_SOURCE = '''\
-class TrEq(Equation):
+class TrEq_CID(Equation):
     def __init__(self, dest, sources, eid=0.0):
         self.eid = eid
-        super(TrEq, self).__init__(dest, sources)
+        Equation.__init__(self, dest, sources)
     def initialize(self, d_idx, d_nn):
         d_nn[d_idx] = 0.0
     def loop(self, d_idx, d_nn):
@@ -171,7 +172,10 @@ def module_source(config):
         if st and st['cls'] not in done:
             done.add(st['cls'])
             L.append(stepper_source(st['cls'], st['methods'], st['hooks']))
-    L.append(EQ_SOURCE)
+    # the class name carries the configuration id: no two configurations share
+    # a generated evaluator module (they are compiled concurrently)
+    L.append(EQ_SOURCE.replace('TrEq_CID', 'TrEq_' + config_id(config)))
+    L.append('TrEq = TrEq_' + config_id(config))
     ig = config['integrator']
     if ig['kind'] == 'generated':
         L.append('class GenIntegrator(Integrator):')
@@ -968,11 +972,66 @@ def evaluate(jobs_out, tab, R, gen_table):
 
 
 def run_jobs(jobs, nproc):
-    import concurrent.futures as cf
-    if len(jobs) == 1 or nproc <= 1:
-        return [worker(j) for j in jobs]
-    with cf.ProcessPoolExecutor(max_workers=nproc) as ex:
-        return list(ex.map(worker, jobs))
+    """every configuration in its own interpreter (plain subprocesses: no
+    fork of a threaded parent, a crash or hang of one cannot wedge the pool);
+    identical configurations are merged so that no two processes ever compile
+    the same generated module"""
+    import subprocess
+    merged = {}
+    order = []
+    for config, cases, work in jobs:
+        cid = config_id(config)
+        if cid not in merged:
+            merged[cid] = (config, [], work)
+            order.append(cid)
+        merged[cid][1].extend(cases)
+    jobs = [merged[c] for c in order]
+    if not jobs:
+        return []
+    work = jobs[0][2]
+    files = []
+    for i, job in enumerate(jobs):
+        jf = os.path.join(work, 'c04-job-%d-%d.json' % (os.getpid(), i))
+        with open(jf, 'w') as fh:
+            json.dump({'config': job[0], 'cases': job[1], 'work': job[2]}, fh)
+        files.append((jf, jf[:-5] + '.out.json', jf[:-5] + '.log'))
+    running = {}
+    todo = list(range(len(jobs)))
+    rcs = {}
+    t_start = time.time()
+    while todo or running:
+        while todo and len(running) < nproc:
+            i = todo.pop(0)
+            jf, of, lf = files[i]
+            running[i] = subprocess.Popen(
+                [sys.executable, os.path.abspath(__file__), '--worker', jf, of],
+                stdout=open(lf, 'w'), stderr=subprocess.STDOUT, cwd=work)
+        for i, p in list(running.items()):
+            if p.poll() is not None:
+                rcs[i] = p.returncode
+                del running[i]
+        if time.time() - t_start > WORKER_BUDGET:
+            for p in running.values():
+                p.kill()
+            raise SystemExit('workers exceeded %d s' % WORKER_BUDGET)
+        time.sleep(0.2)
+    outs = []
+    for i, (jf, of, lf) in enumerate(files):
+        if rcs.get(i) != 0 or not os.path.exists(of):
+            tail = open(lf).read()[-3000:] if os.path.exists(lf) else ''
+            outs.append({'config': jobs[i][0], 'results': [],
+                         'fatal': 'worker exited %r\n%s' % (rcs.get(i), tail)})
+        else:
+            outs.append(json.load(open(of)))
+    return outs
+
+
+def worker_main(jobfile, outfile):
+    job = json.load(open(jobfile))
+    res = worker((job['config'], job['cases'], job['work']))
+    with open(outfile + '.tmp', 'w') as fh:
+        json.dump(res, fh)
+    os.replace(outfile + '.tmp', outfile)
 
 
 def corpus_configs(tab):
@@ -1130,4 +1189,8 @@ def read_gen_table(R, tab):
 
 
 if __name__ == '__main__':
-    main()
+    if len(sys.argv) == 4 and sys.argv[1] == '--worker':
+        os.environ.setdefault('OMP_NUM_THREADS', '1')
+        worker_main(sys.argv[2], sys.argv[3])
+    else:
+        main()
